@@ -58,18 +58,20 @@ type Result struct {
 	HasErr   bool // an error slot exists (even if nil)
 	X        []string
 	Viol     []string // violations noticed by the operation itself (input modified, ...)
+	Incons   []string // results of one operation that contradict each other
 	Steps    uint64
 	keeps    []*keep
 }
 
-func (r *Result) dec(d ...D)         { r.D = append(r.D, d...) }
-func (r *Result) str(s string)       { r.S = append(r.S, s) }
-func (r *Result) int(i int64)        { r.I = append(r.I, i) }
-func (r *Result) uint(u uint64)      { r.U = append(r.U, u) }
-func (r *Result) bool(b bool)        { r.B = append(r.B, b) }
-func (r *Result) err(e error)        { r.Err = e; r.HasErr = true }
-func (r *Result) extra(s string)     { r.X = append(r.X, s) }
-func (r *Result) violation(s string) { r.Viol = append(r.Viol, s) }
+func (r *Result) dec(d ...D)            { r.D = append(r.D, d...) }
+func (r *Result) str(s string)          { r.S = append(r.S, s) }
+func (r *Result) int(i int64)           { r.I = append(r.I, i) }
+func (r *Result) uint(u uint64)         { r.U = append(r.U, u) }
+func (r *Result) bool(b bool)           { r.B = append(r.B, b) }
+func (r *Result) err(e error)           { r.Err = e; r.HasErr = true }
+func (r *Result) extra(s string)        { r.X = append(r.X, s) }
+func (r *Result) violation(s string)    { r.Viol = append(r.Viol, s) }
+func (r *Result) inconsistent(s string) { r.Incons = append(r.Incons, s) }
 
 // keepBytes records a returned byte slice: value now, and the live slice for
 // the stability oracle.
